@@ -264,10 +264,11 @@ Definition peek (m : mstate) (off : nat) : value := nth off (stack m) VNon.
 Definition is_non (v : value) : bool := match v with VNon => true | VRef _ => false end.
 
 Definition two32 : Z := 4294967296%Z.
-(* (uint32_t)(idx_v.tag == TAG_INT ? idx_v.as.i64 : 0), compared with the length before it is used as an index *)
+(* OP_ARR_GET / ARR_SET / ARR_REMOVE: idx64 = (idx_v.tag == TAG_INT ? idx_v.as.i64 : 0) is range-checked as a 64-bit value
+   BEFORE it is narrowed: idx64 < 0 || idx64 >= length  ->  the operands are released and the opcode traps *)
 Definition idx_in (idx : Z) (len : nat) : option nat :=
-  let i := Z.modulo idx two32 in
-  if Z.ltb i (Z.of_nat len) then Some (Z.to_nat i) else None.
+  if Z.leb 0 idx && Z.ltb idx (Z.of_nat len) then Some (Z.to_nat idx) else None.
+(* ARR_SLICE still narrows to uint32 and clamps (vm_array_slice) *)
 Definition clamp32 (z : Z) (len : nat) : nat :=
   let i := Z.modulo z two32 in if Z.ltb i (Z.of_nat len) then Z.to_nat i else len.
 
@@ -352,13 +353,14 @@ Definition ucode (i : instr) (m : mstate) : option (list uop) :=
       then Some [UPop; UPop; UDupReg 1; UAppend; URot 1; URelease; UPush]     (* vm_array_push retains, then the opcode releases v *)
       else Some [UPop; UPop; URelease; URelease]
   | IArrPop =>
-      if has_kind m (peek m 0) KArr then Some [UPop; UPopLast; UPush; UPush] else Some [UPop; URelease]
+      (* not an array, or an empty array: the popped value is released and the opcode traps *)
+      if has_kind m (peek m 0) KArr && (0 <? vals_len m (peek m 0)) then Some [UPop; UPopLast; UPush; UPush] else Some [UPop; URelease]
   | IArrGet idx =>
       let arr := peek m 1 in
       if has_kind m arr KArr then
         match idx_in idx (vals_len m arr) with
         | Some j => Some [UPop; UDrop; UPop; UFieldDup j; URot 1; URelease; UPush]
-        | None => Some [UPop; UDrop; UPop; URelease; UPushNon]               (* vm_array_get out of range -> void *)
+        | None => Some [UPop; UDrop; UPop; URelease]                         (* out of range: array released, trap *)
         end
       else Some [UPop; UDrop; UPop; URelease]
   | IArrSet idx =>
@@ -366,7 +368,7 @@ Definition ucode (i : instr) (m : mstate) : option (list uop) :=
       if has_kind m arr KArr then
         match idx_in idx (vals_len m arr) with
         | Some j => Some [UPop; UPop; UDrop; UPop; URot 1; UFieldSwap j; URelease; UPush]
-        | None => Some [UPop; UPop; UDrop; UPop; URot 1; URelease; UPush]     (* out of range: v is released *)
+        | None => Some [UPop; UPop; UDrop; UPop; URelease; URelease]          (* out of range: array and value released, trap *)
         end
       else Some [UPop; UPop; UDrop; UPop; URelease; URelease]
   | IArrSlice s e =>
@@ -382,7 +384,7 @@ Definition ucode (i : instr) (m : mstate) : option (list uop) :=
       if has_kind m arr KArr then
         match idx_in idx (vals_len m arr) with
         | Some j => Some [UPop; UDrop; UPop; URemoveAt j; URelease; UPush]     (* the removed element is released *)
-        | None => Some [UPop; UDrop; UPop; UPush]
+        | None => Some [UPop; UDrop; UPop; URelease]                         (* out of range: array released, trap *)
         end
       else Some [UPop; UDrop; UPop; URelease]
   | IArrLiteral n => Some (pops n ++ [UAlloc KArr n; UPush])
@@ -422,12 +424,45 @@ Definition step (i : instr) (m : mstate) : option (res mstate) :=
 Definition step_leaks (i : instr) (m : mstate) : bool :=
   match ucode i m with Some us => leaks_uops us m | None => false end.
 
-(* a run: fold of step over an instruction stream (None = left the modelled fragment) *)
+(* does the opcode end the run with trap_error (after the micro-ops above)?  Only the conditions the model can see:
+   operand kinds, index ranges, local/global/field ranges, callee validity.  Type errors between scalars, failed
+   assertions and the instruction budget are invisible to it (answer false). *)
+Definition traps (i : instr) (m : mstate) : bool :=
+  match i with
+  | ILoadLocal i | IStoreLocal i =>
+      match frames m with f :: _ => negb (fbase f + i <? length (stack m)) | [] => false end
+  | ILoadGlobal g | IStoreGlobal g => negb (g <? 4096)
+  | IAdd _ =>
+      let b := peek m 0 in let a := peek m 1 in
+      negb (is_str m a && is_str m b) && negb (is_non a && is_non b) && negb (has_kind m a KArr || has_kind m b KArr)
+  | IArith2 =>
+      let b := peek m 0 in let a := peek m 1 in
+      negb (is_non a && is_non b) && negb (has_kind m a KArr || has_kind m b KArr)
+  | IStrConcat _ => negb (is_str m (peek m 1) && is_str m (peek m 0))
+  | IStrSubstr _ => negb (is_str m (peek m 2))
+  | IStrCharAt => negb (is_str m (peek m 1))
+  | IArrPush => negb (has_kind m (peek m 1) KArr)
+  | IArrPop => negb (has_kind m (peek m 0) KArr && (0 <? vals_len m (peek m 0)))
+  | IArrGet idx | IArrRemove idx =>
+      negb (has_kind m (peek m 1) KArr) || match idx_in idx (vals_len m (peek m 1)) with Some _ => false | None => true end
+  | IArrSet idx =>
+      negb (has_kind m (peek m 2) KArr) || match idx_in idx (vals_len m (peek m 2)) with Some _ => false | None => true end
+  | IArrSlice _ _ => negb (has_kind m (peek m 2) KArr)
+  | IStructGet j => negb (has_kind m (peek m 0) KStruct && (j <? vals_len m (peek m 0)))
+  | IUnionField j => negb (has_kind m (peek m 0) KUnion && (j <? vals_len m (peek m 0)))
+  | ITupleGet j => negb (has_kind m (peek m 0) KTuple && (j <? vals_len m (peek m 0)))
+  | IStructSet j => negb (has_kind m (peek m 1) KStruct && (j <? vals_len m (peek m 1)))
+  | ICallIndirect _ _ ok | IClosureCall _ _ ok => negb (has_kind m (peek m 0) KClos && ok)
+  | _ => false
+  end.
+
+(* a run: fold of step over an instruction stream; a trapping opcode is terminal: its micro-ops are carried out, the
+   rest of the stream is not executed (None = left the modelled fragment) *)
 Fixpoint run (is : list instr) (m : mstate) : option (res mstate) :=
   match is with
   | [] => Some (Ok m)
   | i :: r => match step i m with
-              | Some (Ok m') => run r m'
+              | Some (Ok m') => if traps i m then Some (Ok m') else run r m'
               | other => other
               end
   end.
@@ -436,7 +471,8 @@ Fixpoint run (is : list instr) (m : mstate) : option (res mstate) :=
 Fixpoint run_leaks (is : list instr) (m : mstate) : bool :=
   match is with
   | [] => false
-  | i :: r => step_leaks i m || match step i m with Some (Ok m') => run_leaks r m' | _ => false end
+  | i :: r => step_leaks i m ||
+              match step i m with Some (Ok m') => if traps i m then false else run_leaks r m' | _ => false end
   end.
 
 (* opcodes whose handler in vm.c has no path that forgets a reference, whatever the operand values and types:
@@ -448,7 +484,7 @@ Definition static_exact (i : instr) : bool :=
   | IPopRelease _ _ | IStrConcat _
   | IArrNew | IArrPush | IArrPop | IArrLiteral _
   | IStructNew | IStructGet _ | IStructSet _ | IStructLiteral _
-  | IUnionConstruct _ | IUnionField _ | ITupleNew _ | ITupleGet _ | IClosureNew _ | ICall _ _ => true
+  | IUnionConstruct _ | IUnionField _ | ITupleNew _ | ITupleGet _ | IClosureNew _ | ICall _ _ | IRet => true
   | _ => false
   end.
 Definition no_forget (u : uop) : bool := match u with UDrop => false | _ => true end.
